@@ -16,8 +16,8 @@ from esim.run import RunCtx, run_program
 from . import base
 
 ID = "C17"
-QUICK_RUNS = 4000
-THOROUGH_RUNS = 200000
+QUICK_RUNS = 8000
+THOROUGH_RUNS = 300000
 LEVEL = "exploration"
 RULE = ("one run = one generated program (repeated and equal action types at different depths, failed actions, "
         "remote sub-tasks, several tasks) executed in a SEQ/THREADS/ASYNC world into one MemoryLogger; for every "
